@@ -301,6 +301,24 @@ func (p *pgen) goal(depth, from int, allowCut bool) *G {
 			}
 		case 16:
 			if f.catch && depth > 0 {
+				if r.coin(0.3) {
+					// nested catch/3 goals that have all exited, then an error: none of them is active any more
+					inner := gc("catch", p.goal(0, from, false), p.catcher(), p.goal(0, from, false))
+					if r.coin(0.4) {
+						inner = gc(",", inner, gc("catch", p.goal(0, from, false), p.catcher(), ga("true")))
+					}
+					outer := gc("catch", inner, []*G{gv(-1), gv(-1), p.catcher()}[r.intn(3)], gc("=", gv(r.intn(p.nvars)), ga("caught")))
+					var late *G
+					if r.coin(0.6) {
+						late = gc("throw", p.ball())
+					} else {
+						late = gc("is", gv(r.intn(p.nvars)), gc("+", ga("foo"), gi(1)))
+					}
+					if r.coin(0.5) {
+						return gc(",", outer, late)
+					}
+					return gc(",", outer, gc(",", p.goal(0, from, false), late))
+				}
 				return gc("catch", p.conj(depth-1, from, f.cut), p.catcher(), p.conj(depth-1, from, false))
 			}
 		case 17:
